@@ -231,7 +231,24 @@ func planC14sweep(c *Ctx, run int64, src bool) *Plan {
 		switch n.V.K {
 		case 's':
 			add("alter", n.Ptr, Op{I: int64(r.IntN(1 << 20))})
-			add("setstr", n.Ptr, Op{S2: Pick(r, []string{"", " ", "0", "-", "%", "9999999999999999999999", "1e9", "\u0000", "ÿ", "a.b.c", "--1", "1.2.3", "٣", "1." + strings.Repeat("0", 70), "0." + strings.Repeat("0", 30) + "1", "5." + strings.Repeat("0", 64) + "%", "-0", "00012", "1e-400", "9223372036854775807", "92233720368547758.08"})})
+			add("setstr", n.Ptr, Op{S2: Pick(r, []string{"", " ", "0", "-", "%", "9999999999999999999999", "1e9", "\u0000", "ÿ", "a.b.c", "--1", "1.2.3", "٣", "1." + strings.Repeat("0", 70), "0." + strings.Repeat("0", 30) + "1", "5." + strings.Repeat("0", 64) + "%", "-0", "00012", "1e-400", "9223372036854775807", "92233720368547758.08", "NE(", "(?", "a[b", "x{2,1}", "*", "\\"})})
+			if strings.Contains(n.Ptr, "/ext/") {
+				// extension values end up in messages, lookups and sometimes patterns
+				add("setstr", n.Ptr, Op{S2: Pick(r, []string{"NE(", "(?", "a[b", "x{2,1}", "A*", "\\d"})})
+			}
+			if n.Key == "code" || n.Key == "ref" || strings.HasSuffix(n.Key, "_code") {
+				// identifying codes: the country's own letters where a prefix is not expected, and
+				// characters that mean something to a pattern
+				cc := v.Get("$regime").Str()
+				if cc == "" && v.Get("doc") != nil {
+					cc = v.Get("doc").Get("$regime").Str()
+				}
+				if cc == "" {
+					cc = "ES"
+				}
+				add("setstr", n.Ptr, Op{S2: "AB" + cc + "CD" + cc + "01"})
+				add("setstr", n.Ptr, Op{S2: cc + cc + "(" + cc})
+			}
 			// unknown-code substitution by member name
 			switch n.Key {
 			case "currency":
